@@ -453,7 +453,7 @@ DE_EXEMPT = {
     "VariantAccess<'de>>::newtype_variant_seed|panic|panic_fmt": "J2: is_text == true only when variant_seed peeked Text (rule J2 `is_text`)",
     "VariantAccess<'de>>::tuple_variant|panic|panic_fmt": "J2: is_text == true only when variant_seed peeked Text (rule J2 `is_text`)",
     "VariantAccess<'de>>::struct_variant|panic|panic_fmt": "J2: variant_seed peeked Start or Text and consumed nothing (rule J2 `is_text`)",
-    "Deserializer::skip_next_tree|panic|panic_fmt": "J2: documented precondition `Only call this if the next event is a start event`; callers peek Start first",
+    "Deserializer::skip_next_tree|panic|panic_fmt": "J1 across the call: every caller lies on paths where peek() was matched to Start (rule J1b, re-verified)",
     # ---- J3 reader guarantees matched tags (re-verified by rule J3)
     "EnumAccess<'de>>::variant_seed|panic|panic_fmt(Arguments::new": "J3: an End event cannot be the next event of a value position: the reader rejects stray/mismatched end tags (rule J3) and every Start consumer consumes through the matching End",
     "Deserializer::read_string_impl|panic|panic_fmt(Arguments::new": "J3: same guarantee (rule J3)",
